@@ -23,7 +23,7 @@ const ChunkSize = 1 << 20
 type Blob struct {
 	ID        int    `json:"id"`   // model name, >= 1; sha512 blobs have ids 1000..1999 (model: algorithm = id / 1000)
 	Alg       string `json:"alg,omitempty"` // "" = sha256, "sha512"
-	Kind      string `json:"kind"` // "raw" | "manifest"
+	Kind      string `json:"kind"` // "raw" | "manifest" | "badmanifest" (manifest media type, bytes that are not JSON)
 	Size      int    `json:"size"` // raw: number of bytes
 	Fill      uint64 `json:"fill"` // raw: PRNG seed of the bytes
 	JSON      string `json:"json"` // manifest: the bytes
@@ -33,6 +33,9 @@ type Blob struct {
 func (b Blob) Content() []byte {
 	if b.Kind == "manifest" {
 		return []byte(b.JSON)
+	}
+	if b.Kind == "badmanifest" {
+		return []byte(fmt.Sprintf("{not json %d", b.Fill))
 	}
 	out := make([]byte, b.Size)
 	s := b.Fill*0x9E3779B97F4A7C15 + 77
@@ -73,7 +76,8 @@ func (b Blob) AlgName() string {
 	return b.Alg
 }
 func (b Blob) Digest() string   { return b.AlgName() + ":" + b.Hex() }
-func (b Blob) IsManifest() bool { return b.Kind == "manifest" }
+func (b Blob) IsManifest() bool  { return b.Kind == "manifest" || b.Kind == "badmanifest" }
+func (b Blob) Undecodable() bool { return b.Kind == "badmanifest" }
 
 // Op is one store operation.
 //
